@@ -1,0 +1,31 @@
+//go:build verif
+
+// Contracts for package actions, checked by /verif/govc.
+// This file holds comments only; it is compiled only with the "verif" tag.
+
+package actions
+
+// An externally registered publish hook runs under the notification lock and
+// does not touch the in-process waiter registry (assumed of every hook).
+//@ func publishHook(subID)
+//@   abstract
+//@   modifies nothing
+
+// W1 (C10): every waiter registered for any listed subscription is woken
+// (its one-shot channel closed) and unregistered, unless external hooks take over.
+//@ func WakePublishListeners(onlyInternal, subIDs)
+//@   property C10
+//@   uses notifyspec
+//@   ensures all_listed: (onlyInternal || len(pubNotifyHooks) == 0) ==>
+//@     (forall k int, c chan struct{} :: 0 <= k && k < len(subIDs) && old(waiting(subIDs[k], c)) ==> closed(c))
+//@   ensures unregistered: (onlyInternal || len(pubNotifyHooks) == 0) ==>
+//@     (forall k int, c chan struct{} :: 0 <= k && k < len(subIDs) ==> !waiting(subIDs[k], c))
+//@   ensures no_waiter_lost: forall s uuid.UUID, c chan struct{} :: old(waiting(s, c)) ==> closed(c) || waiting(s, c)
+//@   loop 3
+//@     invariant forall s uuid.UUID, c chan struct{} :: old(waiting(s, c)) ==> closed(c) || waiting(s, c)
+//@     invariant forall k int, c chan struct{} :: 0 <= k && k <= idx ==> !waiting(subIDs[k], c)
+//@   loop 4
+//@     invariant forall s uuid.UUID, c chan struct{} :: old(waiting(s, c)) ==> closed(c) || waiting(s, c)
+//@     invariant forall k int, c chan struct{} :: 0 <= k && k <= idx3 ==> !waiting(subIDs[k], c)
+//@     invariant has(pubWaiters, subIDs[idx3 + 1])
+//@     invariant forall c chan struct{} :: visited(c) ==> !has(pubWaiters[subIDs[idx3 + 1]], c)
